@@ -248,12 +248,22 @@ def write_evidence(chk, tier, seed, results, obls, wall, violations, known_hits,
     generic = [o for o in obls if o.scope == "generic"]
     program = [o for o in obls if o.scope == "program"]
     funcs = []
+    n_scenario = 0
     for r in results:
         p = PROOFS.get(r.pid)
         if p is None:
             continue
+        # a generic proof none of whose obligations mentions a symbolic input pins the contract on concrete scenarios (real objects,
+        # fixed histories): those obligations are CHECKED on the scenario, not proved for all inputs - reported apart
+        scenario = p.scope == "generic" and bool(r.obls) and all("declare-" not in (o.smt2 or "") for o in r.obls)
+        if scenario:
+            n_scenario += len(r.obls)
         funcs.append({"proof": r.pid, "function": p.func, "file": p.file, "line": r.line, "source_sha256_16": r.sha,
-                      "scope": p.scope, "paths": r.paths, "obligations": len(r.obls),
+                      "scope": p.scope, "quantification": ("concrete scenarios of the contract (checked on the stated objects / histories, "
+                                                           "not proved for all inputs)" if scenario else
+                                                           "one generated program, all values" if p.scope == "program" else
+                                                           "all inputs satisfying the precondition"),
+                      "paths": r.paths, "obligations": len(r.obls),
                       "discharged": sum(1 for o in r.obls if o.verdict == "discharged"),
                       "callees_replaced_by_contract_stubs": p.calls, "cut_loops": r.cut_loops})
     samples = []
@@ -276,6 +286,7 @@ def write_evidence(chk, tier, seed, results, obls, wall, violations, known_hits,
         "checker_cmd": "bin/vcheck %s --tier %s" % (prop, tier),
         "trusted_base": _trusted(chk, results),
         "obligations_generic": len(generic),
+        "obligations_generic_on_concrete_scenarios_only": n_scenario,
         "obligations_per_program": len(program),
         "refuted": sum(1 for o in obls if o.verdict == "refuted"),
         "refuted_attributed_to_known_findings": dict(known_hits),
